@@ -28,6 +28,21 @@ package isolation
 //@   loop 1:
 //@     invariant[prefix-admits] forall k Int :: 0 <= k && k < #i && rs[k].MetricType == Concurrency ==> cur + ctx.Input.BatchCount <= rs[k].Threshold
 
+// the slot turns checkPass's verdict into the entry's result: blocked (type isolation, blaming the rule found) exactly
+// when some concurrency rule of the resource would be exceeded by this batch; otherwise the incoming result is handed on
+// untouched. An entry without a resource name is never limited.
+//@ spec func blocked(r) = r != nil && r.status == base.ResultStatusBlocked
+//@ func (s *Slot) Check(ctx) r
+//@   props C04
+//@   requires ctx != nil && ctx.Input != nil && ctx.Resource != nil && !blocked(ctx.RuleCheckResult)
+//@   requires forall k Int :: 0 <= k && k < len(ruleMap[ctx.Resource.name]) ==> ruleMap[ctx.Resource.name][k] != nil
+//@   let cur = max(ctx.StatNode.CurrentConcurrency(), 0)
+//@   let rs = ruleMap[ctx.Resource.name]
+//@   let named = len(ctx.Resource.name) > 0
+//@   ensures[block-iff] blocked(r) <==> old(named && !(forall k Int :: 0 <= k && k < len(rs) && rs[k].MetricType == Concurrency ==> cur + ctx.Input.BatchCount <= rs[k].Threshold))
+//@   ensures[block-type] blocked(r) ==> r.blockErr != nil && r.blockErr.blockType == base.BlockTypeIsolation
+//@   ensures[pass-unchanged] !blocked(r) ==> r == old(ctx.RuleCheckResult)
+
 //@ func getRulesOfResource(res) r
 //@   props C04, C13
 //@   ensures[copy] len(r) == len(ruleMap[res]) && (forall k Int :: 0 <= k && k < len(r) ==> r[k] == ruleMap[res][k])
